@@ -93,7 +93,7 @@ theorem load_save (fl : Rat → Rat) (hfl : ∀ x, |fl x - x| ≤ |x| / 2 ^ 53) 
     (save fl ver time L >>= load fl p) = .ok (normalise p ver L) := by
   have F := okFacts L hL
   obtain ⟨htab, ⟨r7, hr7, hr7'⟩, ⟨r8, hr8, hr8'⟩⟩ := versionOk_cases ver hv
-  obtain ⟨d, hd, hdf, hcons⟩ := data_roundtrip L F.layers
+  obtain ⟨d, hd, hdf, hcons⟩ := data_roundtrip L F.layers F.native
   have hhdr := header_unpack ver (classOf L.config) time ht
   rw [tabToSpace_of_tabFree ver htab, tabToSpace_classOf] at hhdr
   have hcalrt : unpackCalibration (packCalibration L.cal) = L.cal :=
@@ -147,7 +147,7 @@ theorem load_saveV07 (fl : Rat → Rat) (hfl : ∀ x, |fl x - x| ≤ |x| / 2 ^ 5
   obtain ⟨r6, hr6, hr6'⟩ := cmpGe_cases _ _ h6
   obtain ⟨r7, hr7, hr7'⟩ := cmpGe_cases _ _ h7
   have hr8 := cmpLt_cases _ _ h8
-  obtain ⟨d, hd, hdf, hcons⟩ := data_roundtrip L F.layers
+  obtain ⟨d, hd, hdf, hcons⟩ := data_roundtrip L F.layers F.native
   have hkindeq : (if L.config.isSRR then Kind.srr else Kind.laser) = L.kind := by
     have := F.kind
     cases hk : L.kind <;> cases hc : L.config.isSRR <;> simp_all
@@ -178,7 +178,7 @@ theorem load_saveV06 (fl : Rat → Rat) (hfl : ∀ x, |fl x - x| ≤ |x| / 2 ^ 5
   obtain ⟨r6, hr6, hr6'⟩ := cmpGe_cases _ _ h6
   have hr7 := cmpLt_cases _ _ h7
   have hr8 := cmpLt_cases _ _ h8
-  obtain ⟨d, hd, hdf, hcons⟩ := data_roundtrip L F.layers
+  obtain ⟨d, hd, hdf, hcons⟩ := data_roundtrip L F.layers F.native
   have hkindeq : (if L.config.isSRR then Kind.srr else Kind.laser) = L.kind := by
     have := F.kind
     cases hk : L.kind <;> cases hc : L.config.isSRR <;> simp_all
@@ -466,7 +466,7 @@ theorem loadV06_eq_spec (fl : Rat → Rat) (hfl : ∀ x, |fl x - x| ≤ |x| / 2 
   · rw [load_saveV06 fl hfl p ver L hL hv hname]
     simp only [version06Ok, Bool.and_eq_true] at hv
     rw [specOld_of_cmpGe _ _ _ _ hv.1.1.2]; rfl
-  · obtain ⟨f, hf, hh, hfv⟩ := saveV06_ok fl ver L (layersOk_of_ok L hL)
+  · obtain ⟨f, hf, hh, hfv⟩ := saveV06_ok fl ver L (layersOk_of_ok L hL) (native_of_ok L hL)
     rw [stripNul_of_noNulEnd ver hvn] at hfv
     rw [hf, specOld_of_not_cmpGe _ _ _ _ hv]
     exact load_rejects fl p f ver hh hfv hv
@@ -480,7 +480,7 @@ theorem loadV07_eq_spec (fl : Rat → Rat) (hfl : ∀ x, |fl x - x| ≤ |x| / 2 
   · rw [load_saveV07 fl hfl p ver L hL hv]
     simp only [version07Ok, Bool.and_eq_true] at hv
     rw [specOld_of_cmpGe _ _ _ _ hv.1.1.2]; rfl
-  · obtain ⟨f, hf, hh, hfv⟩ := saveV07_ok fl ver L (layersOk_of_ok L hL)
+  · obtain ⟨f, hf, hh, hfv⟩ := saveV07_ok fl ver L (layersOk_of_ok L hL) (native_of_ok L hL)
     rw [stripNul_of_noNulEnd ver hvn] at hfv
     rw [hf, specOld_of_not_cmpGe _ _ _ _ hv]
     exact load_rejects fl p f ver hh hfv hv
@@ -624,5 +624,67 @@ theorem warmup_setter_robust (fl : Rat → Rat) (hfl : ∀ x, |fl x - x| ≤ |x|
   simp only [SRR.setWarmup, id, setWarmup_robust fl hfl seconds c.scantime h]
 
 example : warmupDetermined (43 / 10) (1 / 10) = true ∧ warmupDetermined (5 / 4) (1 / 2) = false := by decide +kernel
+
+/-! ## an old file brought up to date -/
+
+/-- **Old files upgrade cleanly.**  Load a 0.6- or 0.7-layout file of `L`, save the loaded object with
+the current `save` and load that file: the result is `normalise` (current version) of what the old file
+loaded to — data, calibrations (by name) and configuration of `L`, the info the old layout carried, and
+`File Version` now the current one.  Hypotheses beyond those of `load_saveV06` / `load_saveV07`: the
+current version string is one `save` writes, no info value and neither the name nor the file stem ends
+in NUL. -/
+theorem old_layout_upgrade (fl : Rat → Rat) (hfl : ∀ x, |fl x - x| ≤ |x| / 2 ^ 53) (p : PathInfo)
+    (ver time v07 v06 : Str) (L : Laser) (hL : L.ok = true) (hv : versionOk ver = true) (ht : noNulEnd time = true)
+    (h7 : version07Ok v07 = true) (h6 : version06Ok v06 = true)
+    (hname : noNulEnd ((dictGet L.info kName).getD []) = true)
+    (hi : infoNoNul L.info = true) (hsn : noNulEnd p.stem = true) :
+    (saveV06 fl v06 L >>= load fl p >>= fun L1 => save fl ver time L1 >>= load fl p)
+        = .ok (normalise p ver (normaliseV06 p v06 L))
+    ∧ (saveV07 fl v07 L >>= load fl p >>= fun L1 => save fl ver time L1 >>= load fl p)
+        = .ok (normalise p ver (normalise p v07 L)) := by
+  have hv6n : noNulEnd v06 = true := by
+    simp only [version06Ok, Bool.and_eq_true] at h6; exact h6.1.1.1
+  have hv7n : noNulEnd v07 = true := by
+    simp only [version07Ok, Bool.and_eq_true] at h7; exact h7.1.1.1
+  constructor
+  · rw [load_saveV06 fl hfl p v06 L hL h6 hname]
+    have hok : (normaliseV06 p v06 L).ok = true := by
+      have := ok_loaded L hL (finishInfo p v06 [(kName, (dictGet L.info kName).getD [])])
+        (infoNoNul_finishInfo p v06 _ (by intro kv hkv; simp only [List.mem_singleton] at hkv; rw [hkv]; exact hname) hsn hv6n)
+      simpa only [normaliseV06] using this
+    exact load_save fl hfl p ver time _ hok hv ht
+  · rw [load_saveV07 fl hfl p v07 L hL h7]
+    have hok : (normalise p v07 L).ok = true := by
+      have := ok_loaded L hL (finishInfo p v07 (infoSpec L.info))
+        (infoNoNul_finishInfo p v07 _ (noNulEnd_infoSpec_values L.info hi) hsn hv7n)
+      simpa only [normalise] using this
+    exact load_save fl hfl p ver time _ hok hv ht
+
+/-- after the upgrade `File Version` is the current version, whatever the old file declared -/
+example : dictGet (normalise exPath ['0','.','1','0','.','2'] (normaliseV06 exPath ['0','.','6','.','7'] exLaser)).info kFileVersion
+    = some ['0','.','1','0','.','2'] := by decide +kernel
+
+/-- the SRR constructor under float rounding: when the exact quotient `warmup / scantime` is decided
+(`warmupDetermined`), every rounding function within relative error 2⁻⁵³ builds the state the exact
+evaluation builds (the driver constructs the initial state of a history exactly) -/
+theorem srr_constructor_robust (fl : Rat → Rat) (hfl : ∀ x, |fl x - x| ≤ |x| / 2 ^ 53) (a b : Flt) (s w : Rat)
+    (o : List (Int × Int)) (h : warmupDetermined w s = true) : SRR.mk' fl a b s w o = SRR.mk' id a b s w o := by
+  simp only [SRR.mk', id, setWarmup_robust fl hfl w s h]
+
+/-! ## SRR layers are stacked into a native-order array (known finding `C01-srr-byteorder`) -/
+
+/-- `exSRRLaser` with its field stored big-endian -/
+def exSRRSwapped : Laser := { exSRRLaser with fields := [(['A'], ['>','f','8'])] }
+
+/-- **The byte order of SRR fields is not kept** — the model follows the code here, and `Laser.ok`
+excludes such lasers: the stacked array `save` writes is native, so the laser loads with `'<f8'`
+(and would not equal `normalise`, which keeps `'>f8'`).  A `Laser` (one array) keeps its byte order:
+`load_save` covers it. -/
+theorem srr_byteorder_not_kept :
+    exSRRSwapped.ok = false
+    ∧ (save id ['0','.','1','0','.','2'] ['0'] exSRRSwapped >>= load id exPath).map (·.fields) = .ok [(['A'], ['<','f','8'])]
+    ∧ (normalise exPath ['0','.','1','0','.','2'] exSRRSwapped).fields = [(['A'], ['>','f','8'])]
+    ∧ ({ exLaser with fields := [(['A'], ['>','f','8']), (['B','\t','b'], ['>','i','2'])] } : Laser).ok = true := by
+  decide +kernel
 
 end Pew.Npz
